@@ -52,7 +52,7 @@ func retNil(m *Machine, fr *frame, fn *ssa.Function, args []value) value { retur
 func (m *Machine) findIntrinsic(fn *ssa.Function) intrinsicFn {
 	name := fn.Name()
 	// harness API: functions named v<Upper>... in any package
-	if len(name) > 1 && name[0] == 'v' && name[1] >= 'A' && name[1] <= 'Z' && fn.Pkg != nil {
+	if len(name) > 1 && name[0] == 'v' && fn.Pkg != nil && isRepoPkg(fn.Pkg.Pkg.Path()) {
 		if h, ok := harnessAPI[name]; ok {
 			return h
 		}
@@ -138,6 +138,10 @@ func init() {
 		t := args[0].(*Term)
 		return mkConst(t.w, m.concretize(t, fr))
 	}
+	harnessAPI["vIteByte"] = func(m *Machine, fr *frame, fn *ssa.Function, args []value) value {
+		return mkIte(args[0].(*Term), args[1].(*Term), args[2].(*Term))
+	}
+	harnessAPI["vIteInt"] = harnessAPI["vIteByte"]
 	harnessAPI["vAssume"] = func(m *Machine, fr *frame, fn *ssa.Function, args []value) value {
 		m.assume(args[0].(*Term), fr)
 		return nil
